@@ -766,7 +766,7 @@ fn lean_item_tokens(rng: &mut Rng, depth: u32, out: &mut Vec<String>) {
         for _ in 0..12 {
             let mut tmp: Vec<String> = vec![];
             lean_opd_tokens(rng, depth, &mut tmp);
-            if matches!(tmp[0].as_str(), "r" | "fr" | "s" | "fs" | "g" | "fg" | "w" | "fw" | "pe" | "fpe") {
+            if matches!(tmp[0].as_str(), "r" | "fr" | "s" | "fs" | "g" | "fg" | "a" | "x" | "pq" | "w" | "fw" | "pe" | "fpe") {
                 out.push("b".into());
                 out.push(rng.pick(&["2", "1", "0", "10", "007", "3"]).to_string());
                 out.push(rng.pick(&["-", "-", "5", "0", "25", "50"]).to_string());
@@ -845,6 +845,18 @@ fn lean_opd_tokens(rng: &mut Rng, depth: u32, out: &mut Vec<String>) {
                 out.push(crate::model::hex(rng.pick(BND).as_bytes()));
             }
         }
+        return;
+    }
+    const ESQ: &[&str] = &["it's", "a\\b", "\\", "'", "a b", "", "say \"hi\"", "''", "x\\'y"];
+    if rng.chance(1, 9) {
+        if rng.chance(1, 2) {
+            out.push("pq".into());
+        } else {
+            out.push("fpq".into());
+            out.push(crate::model::hex(rng.pick(&["title", "body", "t", "stop"]).as_bytes()));
+        }
+        out.push(crate::model::hex(rng.pick(ESQ).as_bytes()));
+        out.push(rng.pick(&["-", "-", "-", "*", "s1", "s30"]).to_string());
         return;
     }
     const SFX: &[&str] = &["*", "s0", "s1", "s2", "s10", "s007", "s4294967295", "-"];
